@@ -9,8 +9,9 @@ CONSTANT Ns
 Valid == {<<0, 0>>, <<0, 1>>, <<0, 2>>, <<0, 3>>, <<0, 4>>, <<1, 5>>}
 AcceptedRegimes == {0, 1, 4, 6, 7}
 C01Configs == {[phase |-> pf[1], fabric |-> pf[2], regime |-> r, n |-> n] : pf \in Valid, r \in AcceptedRegimes, n \in Ns}
-C01Pars == {[M |-> m, chi |-> c, asm |-> <<0, 1>>, phiOl |-> 7, x |-> <<l, pn>>] :
-              m \in {0, 10, 125, 200}, c \in {0, 3, 9}, l \in {0, 5, 50}, pn \in {0, 1, 2}}
+\* phiOl = 10 / 0: a two-phase assemblage in which one phase has volume fraction exactly zero
+C01Pars == {[M |-> m, chi |-> c, asm |-> <<0, 1>>, phiOl |-> ph, x |-> <<l, pn>>] :
+              m \in {0, 10, 125, 200}, c \in {0, 3, 9}, l \in {0, 5, 50}, pn \in {0, 1, 2}, ph \in {7, 10, 0}}
 \* long single-mineral histories with strong boundary mobility and no sliding floor: grains
 \* shrink towards zero volume, where the solver's absolute tolerance can push them negative
 C01LongConfigs == {[phase |-> 0, fabric |-> f, regime |-> r, n |-> n] : f \in {0, 1, 3}, r \in {4, 6}, n \in Ns}
